@@ -50,8 +50,13 @@ def _case(draw):
             # same variables, same constant, one coefficient different: a different constraint that must not be taken for a duplicate
             co2 = dict(co)
             v0 = list(co2)[draw(st.integers(0, len(co2) - 1))]
-            if draw(st.integers(0, 2)) == 0:
+            how = draw(st.integers(0, 3))
+            if how == 0:
                 co2[v0] = co2[v0] * (1 + draw(st.sampled_from([9e-6, -9e-6])))      # almost, but not, the same number
+            elif how == 1 and len(co2) >= 2 and len(set(co2.values())) >= 2:
+                ks = list(co2)
+                vals = [co2[k_] for k_ in ks]
+                co2 = dict(zip(ks, vals[1:] + vals[:1]))                           # the same numbers on other variables
             else:
                 co2[v0] = co2[v0] + draw(st.sampled_from([1, -1, 2, 0.5])) or 3.0
             c2 = dict(c2, g=c2["g"] + [[co2, c]])
